@@ -9,7 +9,7 @@ from harness.memrun import TICK
 ID = "C06"
 RUN_MODULE = "Model.Lock Run.C06"
 EXPLAIN = "explain"
-RULE = ("2-4 real asyncio tasks entering sections guarded by cache.lock / @cache.locked on a coroutine function / @cache.locked on an async generator / backend.lock on 1-2 keys (the second key lives on a second backend the facade routes to by prefix), lock ttl 1-2 s (spelled as float / int / timedelta / string through the facade), section "
+RULE = ("2-4 real asyncio tasks entering sections guarded by cache.lock / @cache.locked on a coroutine function (constant key, or a key template over the arguments with positional and keyword call forms) / @cache.locked on an async generator / backend.lock on 1-2 keys (the second key lives on a second backend the facade routes to by prefix), lock ttl 1 / 1.5 / 2 s (spelled as float / int / timedelta / string through the facade), section "
         "durations 0-3 x ttl (some overstay; one body in five ends with an exception), wait=True (check_interval 0 or 0.125 s) and wait=False, plus unlock calls with a foreign token; "
         "every set_lock / unlock / ping of the Memory instance is gated, the schedule (which parked task runs next, when the clock advances to "
         "the next timer, which designated task gets cancelled) is a seeded list of choices - all schedules of length <= 7 for two tasks in the "
@@ -36,9 +36,9 @@ def gen_cases(rng, tier):
         nt = rng.randint(2, 4)
         tasks = []
         for i in range(nt):
-            ttl = rng.choice([16, 32])
+            ttl = rng.choice([16, 32, 24])      # 1 s, 2 s, 1.5 s
             tasks.append({"key": rng.choice(["L", "L", "L", "M"]), "ttl": ttl, "dur": rng.choice([0, 4, ttl - 2, ttl, ttl + 4, 3 * ttl]),
-                          "wait": rng.random() < 0.75, "ci": rng.choice([0, 2]), "via": rng.choice(["lock", "locked", "locked_gen", "backend"]),
+                          "wait": rng.random() < 0.75, "ci": rng.choice([0, 2]), "via": rng.choice(["lock", "locked", "locked_gen", "backend", "locked_args"]),
                           "start": rng.choice([0, 0, 2, ttl]), "raise": rng.random() < 0.2,       # the guarded body ends with an exception
                           "spell": rng.choice(["float", "float", "int", "timedelta", "str"])})
         cases.append({"tasks": tasks, "purge": rng.random() < 0.5, "foreign": rng.random() < 0.3,
@@ -117,6 +117,12 @@ def run_impl(case):
                     if spec["via"] == "locked":
                         f = cache.locked(ttl=ttl, key=key, wait=spec["wait"], prefix="", check_interval=spec["ci"] * TICK)(lambda: section())
                         await f()
+                    elif spec["via"] == "locked_args":
+                        # the lock key is a template over the call's arguments: every spelling of the same call guards the same key
+                        async def g(name, pad=0):
+                            return await section()
+                        f = cache.locked(ttl=ttl, key="{name}", wait=spec["wait"], prefix="", check_interval=spec["ci"] * TICK)(g)
+                        await [lambda: f(key), lambda: f(name=key), lambda: f(key, pad=0), lambda: f(pad=0, name=key)][(i + spec["ttl"]) % 4]()
                     elif spec["via"] == "locked_gen":
                         async def gen():
                             yield await section()
@@ -166,7 +172,10 @@ def to_coq(case, obs):
         for key_, kind, who, ttl, r, t in evs:
             if t > now:
                 tr.append((C("E", C("Tick", Z(t - now))), True)); now = t
-            if kind == "try": tr.append((C("E", C("Try", Nat(who), Z(ttl))), r))
+            if kind == "try":
+                # the TTL the task asked for (in whatever spelling), not the one that reached the backend
+                want = case["tasks"][who]["ttl"] if 0 <= who < len(case["tasks"]) else ttl
+                tr.append((C("E", C("Try", Nat(who), Z(want))), r if ttl == want else not r))
             elif kind == "leave": tr.append((C("E", C("Leave", Nat(who))), r))
             elif kind == "in": tr.append((C("SecIn", Nat(who)), True))
             elif kind == "out": tr.append((C("SecOut", Nat(who)), True))
